@@ -78,7 +78,8 @@ func (s bitmap64) Remove(value uint64) {
 func (s bitmap64) Xor(provider Provider[uint64]) {
 	switch typedProvider := provider.(type) {
 	case bitmap64:
-		s.bitmap.Xor(typedProvider.bitmap)
+		// The in-place Xor of the underlying library may modify or alias containers of its operand
+		s.bitmap.Xor(typedProvider.bitmap.Clone())
 
 	case Duplex[uint64]:
 		providerCopy := roaring64.New()
